@@ -102,8 +102,17 @@ def cmd_table():
             f = os.path.join(d, 'result_%s.json' % t)
             if os.path.exists(f):
                 r[t] = json.load(open(f))
-        c = '; '.join('%s: %s' % (t, ','.join(p for p, x in v['checks'].items() if x['rc'] == 1) or 'MISSED') for t, v in r.items()) or 'not run'
-        print('| %s | %s | %s | %s | %s |' % (sid, m.get('property'), str(m.get('clause'))[:90], str(m.get('needs'))[:90], c))
+        def how(x):
+            vl = [l for l in x['lines'] if l.startswith('VIOLATION')]
+            if x['rc'] != 1:
+                return None
+            if vl and all('no-failing-input-found' in l for l in vl):
+                return 'broken obligation/correspondence only (no-failing-input-found)'
+            preds = sorted({w.split('=', 1)[1] for l in vl for w in l.split() if w.startswith('predicate=')})
+            return 'failing input: ' + ', '.join(preds[:4])
+        c = '; '.join('%s: %s' % (t, ', '.join('%s (%s)' % (p, how(x)) for p, x in v['checks'].items() if x['rc'] == 1) or 'MISSED') for t, v in r.items()) or 'not run'
+        cl = lambda z: str(z).replace('|', '/').replace('\n', ' ')
+        print('| %s | %s | %s | %s | %s |' % (sid, m.get('property'), cl(m.get('clause'))[:110], cl(m.get('needs'))[:110], c))
 
 
 if __name__ == '__main__':
